@@ -45,6 +45,9 @@ Law(kind, base, var, vdef) ==
        ELSE IF ~Terminal(base) \/ ~Terminal(var)
             THEN (IF base.class = var.class THEN "skip" ELSE "broken")
        ELSE IF SameObs(base, var, vdef) THEN "holds" ELSE "broken"
+  ELSE IF kind = "yields-ja" THEN
+       \* round-trip laws of the builtins (C14), stated as programs that must evaluate to ja
+       IF var.class = "Value" /\ var.val.t = "B" /\ var.val.v THEN "holds" ELSE "broken"
   ELSE \* undeclare
        IF var.class = "Err" /\ var.kind = "Reference" /\ var.out = <<>> THEN "holds" ELSE "broken"
 =============================================================================
